@@ -163,6 +163,10 @@ def contexts():
         'annotated': (lambda T: Ty('cond', [T], conds=[ALWAYS]), lambda v: v),
         'dataclass-field-struct': (lambda T: _dc([FieldM('inner_val', T)]), lambda v: {'inner_val': v}),
         'dataclass-field-tuple': (lambda T: _dc([FieldM('inner_val', T)], in_format=('tuple',)), lambda v: [v]),
+        # the checked constructor and __replace__ convert their arguments exactly as from_data converts the field
+        'dataclass-constructor': (lambda T: _dc([FieldM('inner_val', T)]), lambda v: {'inner_val': v}),
+        'dataclass-constructor-positional': (lambda T: _dc([FieldM('alpha', Ty('int')), FieldM('inner_val', T)], in_format=('struct', 'tuple')), lambda v: [0, v]),
+        'dataclass-replace': (lambda T: _dc([FieldM('inner_val', T)]), lambda v: {'inner_val': v}),
         # a None default does not make the field's type optional
         'dataclass-field-default-none': (lambda T: _dc([FieldM('inner_val', T, 'val', None)]), lambda v: {'inner_val': v}),
         'dataclass-field-kwonly-default-none': (lambda T: _dc([FieldM('alpha', Ty('int')), FieldM('inner_val', T, 'val', None, kw_only=True)],
@@ -172,6 +176,14 @@ def contexts():
             lambda T: _dc([FieldM('alpha', Ty('str')), FieldM('zz', Ty('any'), 'val', 0, init=False), FieldM('inner_val', T)], in_format=('tuple',)),
             lambda v: ['s', v]),
     }
+
+
+# contexts entered through another door than from_data: name -> call(T, wrapped value)
+CALLS = {
+    'dataclass-constructor': lambda T, d: T(**d),
+    'dataclass-constructor-positional': lambda T, d: T(*d),
+    'dataclass-replace': lambda T, d: T.make_unchecked(inner_val=None).__replace__(**d),
+}
 
 
 def run(ctx):
@@ -192,7 +204,10 @@ def run(ctx):
         verdict = base_verdict
         if base_verdict == 'content':
             verdict = {'accept': 'accept', 'reject': 'reject', 'unspec': 'unspec'}[exp.v]
-        out = observe(env.from_data, v, T)
+        if path in CALLS:
+            out = observe(CALLS[path], T, v)         # the checked constructor / __replace__ instead of from_data: same strictness
+        else:
+            out = observe(env.from_data, v, T)
         ctx.case((vk, tk, path, verdict), sample={'value_kind': vk, 'target_kind': tk, 'context': path, 'value': short(v, 80),
                                                    'table': base_verdict, 'verdict': verdict, 'pane': out.brief()[:100]})
         ctx.count(f"verdict_{verdict}")
@@ -237,6 +252,9 @@ def run(ctx):
                         continue    # None is allowed there by construction
                     if vk in NESTED_ONLY and cname in TOP_LEVEL_CONTEXTS:
                         continue
+                    if cname in CALLS and vk in ('custom-mapping', 'custom-sequence', 'compiled-pattern-str', 'compiled-pattern-bytes', 'str-subclass-instance',
+                                                 'bytes-subclass-instance', 'tuple'):
+                        continue    # (arguments are converted with convert(): carriers and typed objects are normalised first - C14's matter)
                     try:
                         v2 = wv(v)
                     except TypeError:
@@ -264,6 +282,8 @@ def run(ctx):
                     cname = rng.choice(names)
                     if cname == 'optional' and (vk == 'none' or path):
                         continue
+                    if cname in CALLS:
+                        continue
                     wt, wv = CX[cname]
                     try:
                         v = wv(v)
@@ -283,6 +303,6 @@ def post_merge(counters, sets, tier):
     want = len(VALUES) * len(targets())
     if len(sets.get('cells', ())) < want:
         reasons.append(f"only {len(sets.get('cells', ()))} of {want} matrix cells were visited")
-    if len([c for c in sets.get('contexts', ()) if '>' not in c]) < 14:
+    if len([c for c in sets.get('contexts', ()) if '>' not in c]) < 17:
         reasons.append("not every embedding context was visited")
     return reasons
